@@ -27,6 +27,14 @@ def fl (x):
     return repr (float (x))
 # end def fl
 
+def cplx (re, im):
+    """ lossless text of a complex number the option parser accepts """
+    i = repr (float (im))
+    if not i.startswith ('-'):
+        i = '+' + i
+    return repr (float (re)) + i + 'j'
+# end def cplx
+
 LUMPED_ORDER = ('z', 'rlc', 'trap', 'lap')
 
 def lumped_index (spec):
@@ -86,7 +94,7 @@ def to_argv (spec, with_sources = True):
     if cli_src:
         for s in cli_src:
             a += ['--excitation-pulse', ','.join (str (int (x)) for x in s ['p'])]
-            a += ['--excitation-voltage=%s%+rj' % (repr (float (s ['v'][0])), float (s ['v'][1]))]
+            a += ['--excitation-voltage=' + cplx (*s ['v'])]
     else:
         a += ['--excitation-pulse', '1']
     lidx = lumped_index (spec)
@@ -95,7 +103,7 @@ def to_argv (spec, with_sources = True):
             if l ['k'] != kind:
                 continue
             if kind == 'z':
-                a += ['--load=%s%+rj' % (repr (float (l ['z'][0])), float (l ['z'][1]))]
+                a += ['--load=' + cplx (*l ['z'])]
             elif kind == 'rlc':
                 a += ['--rlc-load=' + ','.join ('' if l.get (x) is None else fl (l [x]) for x in 'RLC')]
             elif kind == 'trap':
